@@ -1,10 +1,14 @@
 #!/bin/sh
-# Offline build of the framework from files on disk: Lean library + driver, Rust harness (both profiles).
-set -e
+# Offline build of the framework from files on disk: Lean driver + every property module, Rust harness (both profiles).
+# A property module that fails to build is reported by that property's check, not here.
 cd "$(dirname "$0")"
 export CARGO_NET_OFFLINE=true
 [ -f harness/Cargo.lock ] || cp /repo/Cargo.lock harness/Cargo.lock
-(cd lean && lake build IncrVerif driver)
-(cd harness && cargo build --offline && cargo build --offline --release)
+(cd lean && lake build driver) || exit 1
+for f in lean/IncrVerif/Props/*.lean; do
+  m=IncrVerif.Props.$(basename "$f" .lean)
+  (cd lean && lake build "$m") || echo "WARNING: $m does not build"
+done
+(cd harness && cargo build --offline && cargo build --offline --release) || exit 1
 mkdir -p evidence replays
 echo setup-ok
